@@ -180,6 +180,41 @@ pub fn lane_pairs(bits: u32, n: usize) -> BoxedStrategy<Vec<u64>> {
         .boxed()
 }
 
+/// Word vectors in which later operands are *related* to the first one: with probability 1/4 the vector is made
+/// periodic with a period equal to the word count of some operand type (2, 3, 4, 6, 9, 12, 16 …), so that a call
+/// `f(a, b)` whose operands consume that many words each receives b = a (aliasing), b = a with the sign of its
+/// zeros flipped, b = -a, or b = a with one word changed. `bits` is the float width the words carry (32 / 64).
+pub fn with_related_operands(base: BoxedStrategy<Vec<u64>>, bits: u32) -> BoxedStrategy<Vec<u64>> {
+    (base, 0u8..16, 0usize..9, 0u8..4, any::<u16>())
+        .prop_map(move |(mut w, gate, pi, mode, pick)| {
+            if gate >= 4 || w.len() < 2 {
+                return w;
+            }
+            let p = [1usize, 2, 3, 4, 6, 8, 9, 12, 16][pi].min(w.len() - 1).max(1);
+            let sign: u64 = if bits == 32 { 0x8000_0000 } else { 0x8000_0000_0000_0000 };
+            let mag: u64 = sign - 1;
+            let n = w.len();
+            for i in p..n {
+                let src = w[i % p];
+                w[i] = match mode {
+                    0 => src,
+                    1 => if src & mag == 0 { src ^ sign } else { src },
+                    2 => src ^ sign,
+                    _ => src,
+                };
+            }
+            if mode == 3 {
+                // one word of the second operand differs (next representable value)
+                let k = p + (pick as usize) % p.min(n - p).max(1);
+                if k < n {
+                    w[k] = w[k].wrapping_add(1);
+                }
+            }
+            w
+        })
+        .boxed()
+}
+
 /// classification of an f32 lane
 pub fn class_f32(b: u32) -> &'static str {
     let x = f32::from_bits(b);
